@@ -114,7 +114,12 @@ Inputs == {TokenTextAt(Tok20, i, "top") : i \in 1..NumInputs}
 (*           kind at the top level of the main and of an imported file     *)
 (*  cyc      import cycles (self, 2, 3) in which some or EVERY file has a  *)
 (*           syntax error                                                  *)
-(*  selfty   self-referential inferred types appearing in a type error     *)
+(*  selfty   self-referential inferred types appearing in a type error or  *)
+(*           meeting an operator that walks the type                       *)
+(*  text     strings, comments and error tokens that span 1-4 lines and    *)
+(*           hold non-ASCII characters before / after / on their last line *)
+(*  entry    where `start` comes from: defined, imported, renamed, only in *)
+(*           another file, in both, of a wrong type; 1-3 files, cycles     *)
 (***************************************************************************)
 FamDig == <<"0", "1", "2", "3", "4", "5", "6", "7", "8", "9">>
 RECURSIVE FamNum(_)
@@ -434,39 +439,157 @@ CycCase(i) ==
 
 \* ---- selfty: a value whose inferred type contains itself, shown in a type error ---------------------
 \* <<top-level lines, lines in start, the variable>>
-SelfMakers == <<
-    [id |-> "list",     top |-> <<>>, body |-> <<"l := []", "l = [l]">>, v |-> "l"],
-    [id |-> "listlist", top |-> <<>>, body |-> <<"l := []", "m := [l]", "l = [m]">>, v |-> "m"],
-    [id |-> "tuple",    top |-> <<>>, body |-> <<"l := []", "u := (l, 1)", "l = [u]">>, v |-> "u"],
-    [id |-> "fn",       top |-> <<"f :: fn ->", "f", "end">>, body |-> <<>>, v |-> "f"],
-    [id |-> "fnlocal",  top |-> <<>>, body |-> <<"l := []", "k := fn -> l end", "l = [k]">>, v |-> "k"],
-    [id |-> "blob",     top |-> <<>>, body |-> <<"l := []", "c := Bg { f: l }", "l = [c]">>, v |-> "c"],
-    [id |-> "blobfield", top |-> <<>>, body |-> <<"c := Bg { f: [] }", "c.f = [c]">>, v |-> "c.f"] >>
+\* a maker: the lines before the use, the lines after it, the variable whose type contains itself
+SelfInStart(top, body, v) == [pre |-> top \o <<"start :: fn do", "q := 0">> \o body, post |-> <<"end">>, v |-> v]
+\* ... built from un-annotated parameters (only those can become a tuple that holds itself and nothing else)
+SelfInFn(params, body, v) == [pre |-> <<"f :: fn " \o params \o " do", "q := 0">> \o body, post |-> <<"end", "start :: fn do", "end">>, v |-> v]
+SelfMakerIds == <<"list", "listlist", "tuple", "fn", "fnlocal", "blob", "blobfield", "ptuple", "ptuplepair", "ptupledeep", "pknot">>
+SelfMaker(id) ==
+    CASE id = "list"      -> SelfInStart(<<>>, <<"l := []", "l = [l]">>, "l")
+      [] id = "listlist"  -> SelfInStart(<<>>, <<"l := []", "m := [l]", "l = [m]">>, "m")
+      [] id = "tuple"     -> SelfInStart(<<>>, <<"l := []", "u := (l, 1)", "l = [u]">>, "u")
+      [] id = "fn"        -> SelfInStart(<<"f :: fn ->", "f", "end">>, <<>>, "f")
+      [] id = "fnlocal"   -> SelfInStart(<<>>, <<"l := []", "k := fn -> l end", "l = [k]">>, "k")
+      [] id = "blob"      -> SelfInStart(<<>>, <<"l := []", "c := Bg { f: l }", "l = [c]">>, "c")
+      [] id = "blobfield" -> SelfInStart(<<>>, <<"c := Bg { f: [] }", "c.f = [c]">>, "c.f")
+      [] id = "ptuple"     -> SelfInFn("c", <<"s := [c, (c,)]">>, "c")                  \* c = (c,)
+      [] id = "ptuplepair" -> SelfInFn("c", <<"s := [c, (c, 1)]">>, "c")                \* c = (c, int)
+      [] id = "ptupledeep" -> SelfInFn("c", <<"s := [c, ((c,),)]">>, "c")               \* c = ((c,),)
+      [] id = "pknot"      -> SelfInFn("c, o", <<"w := (c,)", "i := c[0]", "i = w", "wo := (o,)", "s := [o, (wo,)]", "b := [w, wo]">>, "c")
+\* a use: a \o v \o b, or a \o v \o m \o v \o b when the value meets itself
+SelfUse(id, a, m, b) == [id |-> id, a |-> a, m |-> m, b |-> b]
 SelfUses == <<
-    [id |-> "add", a |-> "", b |-> " + 1"], [id |-> "neg", a |-> "-", b |-> ""], [id |-> "annot", a |-> "n: int = ", b |-> ""],
-    [id |-> "arg", a |-> "id(", b |-> ")"], [id |-> "call", a |-> "", b |-> "(1, 2)"], [id |-> "field", a |-> "", b |-> ".zz"],
-    [id |-> "index", a |-> "", b |-> "[7]"], [id |-> "less", a |-> "", b |-> " < 1"], [id |-> "asserteq", a |-> "", b |-> " <=> 1"],
-    [id |-> "cond", a |-> "if ", b |-> " do end"], [id |-> "ret", a |-> "ret ", b |-> ""], [id |-> "assign", a |-> "q = ", b |-> ""],
-    [id |-> "variant", a |-> "E.A ", b |-> ""], [id |-> "scrutinee", a |-> "case ", b |-> " do else end end"] >>
-SelfSize == Len(SelfMakers) * Len(SelfUses) * 2
+    SelfUse("add", "", "", " + 1"), SelfUse("neg", "-", "", ""), SelfUse("annot", "n: int = ", "", ""),
+    SelfUse("arg", "id(", "", ")"), SelfUse("call", "", "", "(1, 2)"), SelfUse("field", "", "", ".zz"),
+    SelfUse("index", "", "", "[7]"), SelfUse("less", "", "", " < 1"), SelfUse("asserteq", "", "", " <=> 1"),
+    SelfUse("cond", "if ", "", " do end"), SelfUse("ret", "ret ", "", ""), SelfUse("assign", "q = ", "", ""),
+    SelfUse("variant", "E.A ", "", ""), SelfUse("scrutinee", "case ", "", " do else end end"),
+    SelfUse("addself", "", " + ", ""), SelfUse("subself", "", " - ", ""), SelfUse("mulself", "", " * ", ""),
+    SelfUse("divself", "", " / ", ""), SelfUse("lessself", "", " < ", ""), SelfUse("equalself", "", " == ", ""),
+    SelfUse("listself", "[", ", ", "]"), SelfUse("index0", "", "", "[0]") >>
+SelfSize == Len(SelfMakerIds) * Len(SelfUses) * 2
 SelfCase(i) ==
     LET m == i - 1
         std == (m % 2) = 1
         use == SelfUses[((m \div 2) % Len(SelfUses)) + 1]
-        mk == SelfMakers[(m \div (2 * Len(SelfUses))) + 1] IN
-    [id |-> "selfty:" \o mk.id \o ":" \o use.id \o (IF std THEN ":std" ELSE ":nostd"), nostd |-> ~std,
-     files |-> FamMain(NestPrelude \o FamLines(mk.top \o <<"start :: fn do", "q := 0">> \o mk.body \o <<use.a \o mk.v \o use.b, "end">>))]
+        mid == SelfMakerIds[(m \div (2 * Len(SelfUses))) + 1]
+        mk == SelfMaker(mid) IN
+    [id |-> "selfty:" \o mid \o ":" \o use.id \o (IF std THEN ":std" ELSE ":nostd"), nostd |-> ~std,
+     files |-> FamMain(NestPrelude \o FamLines(mk.pre \o <<use.a \o mk.v \o (IF use.m = "" THEN "" ELSE use.m \o mk.v) \o use.b>> \o mk.post))]
+
+\* ---- text: tokens that span lines and hold non-ASCII characters (tokenizer-level totality) ---------------
+\* TLC must not be given non-ASCII text: @2@, @3@, @4@ stand for one character of 2, 3, 4 UTF-8 bytes; the
+\* recorder replaces them when it compiles a member of this family.
+TextKinds == <<"string", "comment", "errstring", "errchar">>
+TextChars == <<"@2@", "@3@", "@4@">>
+TextPos == <<"first", "mid", "last">>        \* the line of the token that holds the two non-ASCII characters
+TextFollows == <<"none", "op", "ident">>     \* what stands after the token on its closing line
+TextPlants == <<"none", "later", "here">>    \* no error / a type error on a later line / a type error on the closing line
+TextMaxLines == 4
+TextMaxLast == 6
+\* line q of the n lines of the token: two non-ASCII characters on the chosen line, `last` more characters on the last
+TextLine(q, n, ch, pos, last) ==
+    LET chosen == CASE pos = "first" -> 1 [] pos = "mid" -> (n \div 2) + 1 [] pos = "last" -> n IN
+    (IF q = chosen THEN ch \o "a" \o ch ELSE "") \o (IF q = n THEN FamRep("x", last) ELSE "ab")
+RECURSIVE TextContent(_, _, _, _, _)
+TextContent(q, n, ch, pos, last) ==
+    IF q = n THEN TextLine(q, n, ch, pos, last) ELSE TextLine(q, n, ch, pos, last) \o NL \o TextContent(q + 1, n, ch, pos, last)
+RECURSIVE TextCommentLines(_, _, _, _)
+TextCommentLines(q, n, ch, pos) ==
+    IF q >= n THEN <<>> ELSE <<"// " \o TextLine(q, n, ch, pos, 0)>> \o TextCommentLines(q + 1, n, ch, pos)
+TextFile(kind, n, ch, pos, last, follow, plant) ==
+    LET t == DQ \o "t" \o DQ
+        here == IF plant = "here" THEN " + 1" ELSE ""
+        later == IF plant = "later" THEN <<"z :: 1 + " \o StrLit>> ELSE <<>>
+        tail == <<"start :: fn do", "end">>
+        fol == CASE follow = "none" -> "" [] follow = "op" -> " + " \o t [] follow = "ident" -> " + y"
+        content == TextContent(1, n, ch, pos, last) IN
+    CASE kind = "string" ->
+           FamLines(<<"y :: " \o t, "s :: " \o DQ \o content \o DQ \o fol \o here>> \o later \o tail)
+      [] kind = "errchar" ->      \* a character that is no token, after the string on its closing line
+           FamLines(<<"y :: " \o t, "s :: " \o DQ \o content \o DQ \o fol \o here \o " " \o ch>> \o later \o tail)
+      [] kind = "errstring" ->    \* the closing quote is missing: the token runs to the end of the file
+           FamLines(<<"y :: " \o t>> \o tail \o later \o
+                    <<"s :: " \o DQ \o content \o (CASE follow = "none" -> "" [] follow = "op" -> " + t" [] follow = "ident" -> " y") \o here>>)
+      [] kind = "comment" ->
+           FamLines(<<"y :: " \o t>> \o TextCommentLines(1, n, ch, pos) \o
+                    (CASE follow = "none" -> <<"// " \o TextLine(n, n, ch, pos, last), "s :: " \o t \o here>>
+                       [] follow = "op" -> <<"s :: " \o t \o " + " \o t \o here \o " // " \o TextLine(n, n, ch, pos, last)>>
+                       [] follow = "ident" -> <<"s :: (" \o t \o here \o ", // " \o TextLine(n, n, ch, pos, last), "y)">>)
+                    \o later \o tail)
+TextSize == Len(TextKinds) * TextMaxLines * Len(TextChars) * Len(TextPos) * (TextMaxLast + 1) * Len(TextFollows) * Len(TextPlants)
+TextCase(i) ==
+    LET m == i - 1
+        plant == TextPlants[(m % 3) + 1]
+        follow == TextFollows[((m \div 3) % 3) + 1]
+        last == (m \div 9) % (TextMaxLast + 1)
+        pos == TextPos[((m \div 63) % 3) + 1]
+        k == ((m \div 189) % 3) + 1
+        n == ((m \div 567) % TextMaxLines) + 1
+        kind == TextKinds[(m \div 2268) + 1] IN
+    [id |-> "text:" \o kind \o ":n" \o FamNum(n) \o ":b" \o FamNum(k + 1) \o ":" \o pos \o ":l" \o FamNum(last) \o ":" \o follow \o ":" \o plant,
+     nostd |-> TRUE, files |-> FamMain(TextFile(kind, n, TextChars[k], pos, last, follow, plant))]
+
+\* ---- entry: where the entry point `start` comes from -------------------------------------------------------
+EntryVariants == <<"main", "fromuse", "fromas", "usens", "both", "bothfrom", "importedonly", "none">>
+EntryTypes == <<"fnvoid", "const", "fnparam", "fnret", "var">>
+EntryTopos == <<"single", "two", "chain", "cycle", "cycle3", "reexport">>
+EntryDef(name, ty) == CASE ty = "fnvoid"  -> name \o " :: fn do end"
+                         [] ty = "const"   -> name \o " :: 1"
+                         [] ty = "fnparam" -> name \o " :: fn a: int do end"
+                         [] ty = "fnret"   -> name \o " :: fn -> int do ret 1 end"
+                         [] ty = "var"     -> name \o " := fn do end"
+EntryMain(variant, tm) ==
+    CASE variant = "main"         -> <<"use m", EntryDef("start", tm)>>
+      [] variant = "fromuse"      -> <<"from m use start">>
+      [] variant = "fromas"       -> <<"from m use (x as start)">>
+      [] variant = "usens"        -> <<"use m", "z :: m.start">>
+      [] variant = "both"         -> <<"use m", EntryDef("start", tm)>>
+      [] variant = "bothfrom"     -> <<"from m use start", EntryDef("start", tm)>>
+      [] variant = "importedonly" -> <<"use m">>
+      [] variant = "none"         -> <<"use m">>
+\* the name module m provides, and the file that really defines it
+EntryProvided(variant) == IF variant \in {"main", "fromas", "none"} THEN "x" ELSE "start"
+EntryFiles(variant, tm, tmod, topo) ==
+    LET name == EntryProvided(variant)
+        def == EntryDef(name, tmod)
+        main == FamFile("main.sy", FamLines(EntryMain(variant, tm))) IN
+    CASE topo = "single"   -> <<main>>
+      [] topo = "two"      -> <<main, FamFile("m.sy", FamLines(<<def>>))>>
+      [] topo = "chain"    -> <<main, FamFile("m.sy", FamLines(<<"use n", def, "k :: n.y">>)), FamFile("n.sy", FamLines(<<"y :: 1">>))>>
+      [] topo = "cycle"    -> <<main, FamFile("m.sy", FamLines(<<"use main", def>>))>>
+      [] topo = "cycle3"   -> <<main, FamFile("m.sy", FamLines(<<"use n", def>>)), FamFile("n.sy", FamLines(<<"use main", "y :: 1">>))>>
+      [] topo = "reexport" -> <<main, FamFile("m.sy", FamLines(<<"from n use " \o name, "k :: 1">>)), FamFile("n.sy", FamLines(<<def>>))>>
+EntryGrid == Len(EntryVariants) * Len(EntryTypes) * Len(EntryTypes) * Len(EntryTopos)
+EntryStdGrid == Len(EntryVariants) * Len(EntryTopos)       \* with std: the well-typed corner only
+EntrySize == EntryGrid + EntryStdGrid
+EntryCase(i) ==
+    IF i <= EntryGrid THEN
+        LET m == i - 1
+            topo == EntryTopos[(m % 6) + 1]
+            tmod == EntryTypes[((m \div 6) % 5) + 1]
+            tm == EntryTypes[((m \div 30) % 5) + 1]
+            variant == EntryVariants[(m \div 150) + 1] IN
+        [id |-> "entry:" \o variant \o ":" \o tm \o ":" \o tmod \o ":" \o topo \o ":nostd", nostd |-> TRUE,
+         files |-> EntryFiles(variant, tm, tmod, topo)]
+    ELSE LET m == i - 1 - EntryGrid
+             topo == EntryTopos[(m % 6) + 1]
+             variant == EntryVariants[(m \div 6) + 1] IN
+         [id |-> "entry:" \o variant \o ":fnvoid:fnvoid:" \o topo \o ":std", nostd |-> FALSE,
+          files |-> EntryFiles(variant, "fnvoid", "fnvoid", topo)]
 
 \* ---- the families by name -------------------------------------------------------------------------
-Families == <<"nest", "nestraw", "nestsolo", "place", "cyc", "selfty">>
+Families == <<"nest", "nestraw", "nestsolo", "place", "cyc", "selfty", "text", "entry">>
 FamSize(f) == CASE f = "nest" -> NestSize [] f = "nestraw" -> RawSize [] f = "nestsolo" -> SoloSize
                 [] f = "place" -> PlaceSize [] f = "cyc" -> CycSize [] f = "selfty" -> SelfSize
+                [] f = "text" -> TextSize [] f = "entry" -> EntrySize
 \* what the recorder writes as the input of a case: every file under a header line, main file first
 RECURSIVE FamTextFrom(_, _)
 FamTextFrom(files, q) == IF q > Len(files) THEN "" ELSE "## " \o files[q].name \o NL \o files[q].text \o FamTextFrom(files, q + 1)
 FamText(c) == FamTextFrom(c.files, 1)
 FamCase(f, i) == CASE f = "nest" -> NestCase(i) [] f = "nestraw" -> RawCase(i) [] f = "nestsolo" -> SoloCase(i)
                    [] f = "place" -> PlaceCase(i) [] f = "cyc" -> CycCase(i) [] f = "selfty" -> SelfCase(i)
+                   [] f = "text" -> TextCase(i) [] f = "entry" -> EntryCase(i)
 
 ---------------------------------------------------------------------------
 Init == /\ phase = "idle" /\ input = "" /\ stage = "none"
